@@ -352,6 +352,11 @@ func main() {
 		report(fs, "end-run", ec)
 	}
 	out.Extra["slow_line_bytes"] = len(slowLine)
+	cf := 400
+	if a.Thorough() {
+		cf = 6000
+	}
+	concurrentFirstLines(out, cf)
 	out.Flush("load/reload/unload/line/GC histories (7-14 steps) over 1-3 programs; every expvar delta is compared after every step; non-trivial when the history contains at least two of: compile error, refused registration, unload, runtime error; plus end-to-end histories of a real mtail.Server over 1-3 log files (create with content to be skipped, append with empty lines, CRLF and unterminated tails, remove) reconciling log_count, log_lines_total and lines_total after every event, non-trivial when a file is removed and some append ends without a newline; plus ends of runs: the real fan-out loop over 0-3 stand-in programs under exact interleavings of 0-4 sends, the close, hand-overs and the end of input (non-trivial when the channel is closed while the loader still holds the last line out to a program), and real Runtimes with real VMs whose input is closed 0-200 us after a burst of 1-5 lines (non-trivial when a VM is still busy with a slow line when the last line is sent), lines_total and the per-program counters read after shutdown", false)
 }
 
